@@ -486,6 +486,85 @@ theorem p2f_disc (hS : Static c w addrs own') {Y : List Block} {b : Block} (hV :
         (fun _ _ _ h _ => by rw [e5]; exact h) (fun _ _ h _ => by rw [← e5]; exact h)
         (fun _ _ => by rw [e7]) (fun _ _ => by rw [e6])⟩
 
+/-- **connecting the next block of the node's chain** (the store-level core of `phase2_notify_ext`) -/
+theorem p2f_connect (hS : Static c w addrs own') (hgN : GoodChain c.node.chain) (hvN : ChainValid c.own c.node.chain)
+    (hknN : ∀ y ∈ c.node.chain, AMap.get c.node.known y.id = some y) {s : Store} {h : Nat} {b : Block}
+    (hb : c.node.chain[h + 1]? = some b) (hP : P2F c w addrs own' fl s (c.node.chain.take (h + 1))) :
+    ∃ s' conf, filterBlock c s (readyWallets s c.wallets) b = .ok (s', conf) ∧
+      P2F c w addrs own' fl s' (c.node.chain.take (h + 2)) ∧ s'.status = s.status := by
+  obtain ⟨g, k, hkfl, hflX, hG, hSub, hM⟩ := hP
+  have hKN := hS.keys
+  have hlt : h + 1 < c.node.chain.length := (List.getElem?_eq_some_iff.1 hb).1
+  have hlen : (c.node.chain.take (h + 1)).length = h + 1 := by rw [List.length_take]; omega
+  have e : c.node.chain.take (h + 2) = c.node.chain.take (h + 1) ++ [b] := take_succ_of_get hb
+  have hnode : c.node.chain = c.node.chain.take (h + 1) ++ b :: c.node.chain.drop (h + 2) := by
+    have : c.node.chain.drop (h + 1) = b :: c.node.chain.drop (h + 2) := by
+      rw [List.drop_eq_getElem?_toList_append, hb]; rfl
+    rw [← this, List.take_append_drop]
+  have hk : k + 1 ≤ (c.node.chain.take (h + 1)).length := by omega
+  have H : RemHyp c w addrs own' (c.node.chain.take (h + 1)) :=
+    ⟨hS.minus, hS.managed, hS.ne, chainValid_take hvN _, heightsOK_take hgN.heights _,
+      fun y hy => hknN y (List.mem_of_mem_take hy)⟩
+  have H' : RemHyp c w addrs own' (c.node.chain.take (h + 1) ++ [b]) := by
+    rw [← e]
+    exact ⟨hS.minus, hS.managed, hS.ne, chainValid_take hvN _, heightsOK_take hgN.heights _,
+      fun y hy => hknN y (List.mem_of_mem_take hy)⟩
+  have hbh : b.height = (c.node.chain.take (h + 1)).length := by rw [hlen]; exact hgN.heights _ _ hb
+  have hnr : (readyWallets g c.wallets).contains w = false := notReady_of_removed hG.flag rfl
+  obtain ⟨g', conf, hfg, hSg', hstg, _⟩ := connect_scanJS' hKN ⟨hvN, hgN.heights⟩ hnode hG.scan hnr hk hG.allReady
+    hG.nonempty
+  have hready : readyWallets s c.wallets = readyWallets g c.wallets := readyWallets_congr hSub.status c.wallets
+  have hFs : AMap.get s.blocks b.height = none := by
+    have := hM.blocks b.height
+    rw [show AMap.get s.blocks b.height = _ from this, hbh]
+    exact blockRecOf_none (Nat.le_refl _)
+  obtain ⟨s', hfs, hSub', hNew, hns', hng', _, f_tx, f_blk, f_deb, f_cred, gc1, gc2, gf_tx, _, gf_deb⟩ :=
+    filterBlock_sim (c := c) (ready := readyWallets g c.wallets) hSub hG.nodup hM.nodup
+      (ghost_fresh H hKN hk hG.scan hbh) hFs (ghost_coinsOK H hKN hG.scan hnr)
+      (ghost_find H hKN hk hG.scan hG.nodup hnode hvN)
+      (real_own H hKN hk hG.scan hG.nodup hM.nodup hM.credits hnode hvN hnr)
+      (ready_not_addrs H hnr) hfg
+  have hnr' : (readyWallets g' c.wallets).contains w = false := by rw [readyWallets_congr hstg]; exact hnr
+  have hM' := midC_ext H H' hKN hk hbh hG.scan hSg' hnr' hng' hM hSub hSub' hNew hns' f_tx f_blk f_deb f_cred gc1 gc2
+    gf_tx gf_deb
+  refine ⟨s', conf, by rw [hready]; exact hfs, ?_, hSub'.status.trans (hstg.trans hSub.status.symm)⟩
+  rw [e]
+  refine ⟨g', k, hkfl, by rw [List.length_append]; omega, ⟨hSg', by rw [hstg]; exact hG.flag, ?_, ?_, hng'⟩, hSub', hM'⟩
+  · rw [readyWallets_congr hstg]; exact hG.allReady
+  · rw [readyWallets_congr hstg]; exact hG.nonempty
+
+theorem p2f_connSpec (hS : Static c w addrs own') (hgN : GoodChain c.node.chain) (hvN : ChainValid c.own c.node.chain)
+    (hknN : ∀ y ∈ c.node.chain, AMap.get c.node.known y.id = some y) :
+    ConnSpec c (P2F c w addrs own' fl) (fun _ => True) := by
+  have key : ∀ (d : Nat) (s : Store) (f B : Nat) (ready : List Wid) (added : List (Nat × List TxId)), B - f = d → f ≤ B →
+      B < c.node.chain.length → P2F c w addrs own' fl s (c.node.chain.take (f + 1)) → ready = readyWallets s c.wallets →
+      ∃ s' added', connectAll c ready ((c.node.chain.take (B + 1)).drop (f + 1)) s added = .ok (s', added') ∧
+        P2F c w addrs own' fl s' (c.node.chain.take (B + 1)) := by
+    intro d
+    induction d with
+    | zero =>
+      intro s f B ready added hd hfB _ hI _
+      have : f = B := by omega
+      subst this
+      refine ⟨s, added, ?_, hI⟩
+      rw [List.drop_take]; simp [connectAll]
+    | succ d ih =>
+      intro s f B ready added hd hfB hBl hI hr
+      have hx : c.node.chain[f + 1]? = some c.node.chain[f + 1] := List.getElem?_eq_getElem (by omega)
+      rw [seg_cons hx (by omega)]
+      obtain ⟨s1, conf, hfb, hI1, hst1⟩ := p2f_connect hS hgN hvN hknN hx hI
+      obtain ⟨s2, added2, h2, hI2⟩ := ih s1 (f + 1) B ready (added ++ [(c.node.chain[f + 1].height, conf)]) (by omega)
+        (by omega) hBl hI1 (by rw [hr]; exact (readyWallets_congr hst1 c.wallets).symm)
+      refine ⟨s2, added2, ?_, hI2⟩
+      unfold connectAll
+      rw [hr, hfb]
+      simp only [M_ok_bind]
+      rw [← hr]
+      exact h2
+  intro s f B hfB hBl hI _
+  obtain ⟨s', added', h1, h2⟩ := key (B - f) s f B _ [] rfl hfB hBl hI rfl
+  exact ⟨s', added', h1, h2, trivial⟩
+
 end floor
 
 end MW.Lemmas.RemoveInterleave
